@@ -80,7 +80,7 @@ func waitFor(f func() bool) bool {
 func runHandler(c HCase) (msg string, nontrivial bool) {
 	m, err := newMachine(Cfg{Prefix: c.Cfg.Prefix, Indexes: []string{"ia"}, SlowKey: c.Cfg.SlowKey})
 	if err != nil {
-		return "VERIF-INCONCLUSIVE: " + err.Error(), false
+		return svc.Verdict(err), false
 	}
 	defer m.cleanup()
 	s := res.NewService("svc")
@@ -242,7 +242,7 @@ func runHandler(c HCase) (msg string, nontrivial bool) {
 		}
 		_, resp := rn.Replies(reply)
 		if len(resp) != 1 {
-			return "", fmt.Errorf("get %s: %d responses", rid, len(resp))
+			return "", svc.Behaviour(fmt.Sprintf("get %s: %d responses", rid, len(resp)))
 		}
 		var p struct {
 			Result *struct {
@@ -255,7 +255,7 @@ func runHandler(c HCase) (msg string, nontrivial bool) {
 			return "error:" + p.Error.Code, nil
 		}
 		if p.Result == nil {
-			return "", fmt.Errorf("get %s: %s", rid, resp[0])
+			return "", svc.Behaviour(fmt.Sprintf("a get of %s is answered with %s", rid, resp[0]))
 		}
 		if c.Model {
 			return canon(p.Result.Model), nil
@@ -266,7 +266,7 @@ func runHandler(c HCase) (msg string, nontrivial bool) {
 	for _, rid := range c.Held {
 		v, err := get(rid)
 		if err != nil {
-			return "VERIF-INCONCLUSIVE: " + err.Error(), false
+			return svc.Verdict(err), false
 		}
 		cl.cache[rid] = v
 	}
@@ -292,7 +292,7 @@ func runHandler(c HCase) (msg string, nontrivial bool) {
 			m.mu.Unlock()
 			// the get raced the mutation: what it returns may be either state
 			if _, err := get(c.During[i]); err != nil {
-				return "VERIF-INCONCLUSIVE: " + err.Error(), nontrivial
+				return svc.Verdict(err), nontrivial
 			}
 			m.mu.Lock()
 			m.scanHook = nil
@@ -346,7 +346,7 @@ func runHandler(c HCase) (msg string, nontrivial bool) {
 			// the resource whose get raced the mutation, fetched again
 			fresh, err := get(d)
 			if err != nil {
-				return "VERIF-INCONCLUSIVE: " + err.Error(), nontrivial
+				return svc.Verdict(err), nontrivial
 			}
 			if want, ok := wantOf(d); ok && fresh != want {
 				return fmt.Sprintf("mutation %d %+v was made (and flushed) during a get of %s; the next get of it returns %s, the query store holds %s", i, op, d, fresh, want), true
@@ -359,7 +359,7 @@ func runHandler(c HCase) (msg string, nontrivial bool) {
 			}
 			fresh, err := get(rid)
 			if err != nil {
-				return "VERIF-INCONCLUSIVE: " + err.Error(), nontrivial
+				return svc.Verdict(err), nontrivial
 			}
 			if want, ok := wantOf(rid); ok && fresh != want {
 				return fmt.Sprintf("after mutation %d %+v (flushed; made during a get of %q) a get of %s returns %s, the query store holds %s", i, op, duringOf(c, i), rid, fresh, want), true
